@@ -2,6 +2,7 @@ package scen
 
 import (
 	"fmt"
+	"net"
 	"strings"
 
 	"simh/env"
@@ -11,7 +12,9 @@ func init() {
 	Register("c04", runC04)
 }
 
-var c04Odd = []string{"", "unknown", "_hidden", "fe80::1%eth0", "fe80::2%eth0", "fe80::1%eth1", "10.1.0.10:5555", "10.1.0.11:5555", "[2001:db8::7]:4711", "client-a.example.test", "client-b.example.test"}
+var c04Odd = []string{"", "unknown", "_hidden", "fe80::1%eth0", "fe80::2%eth0", "fe80::1%eth1", "10.1.0.10:5555", "10.1.0.11:5555", "[2001:db8::7]:4711", "client-a.example.test", "client-b.example.test",
+	// legal spellings of IPv6 addresses that are not the canonical text form
+	"2001:DB8::7", "2001:0db8:0000:0000:0000:0000:0000:0007", "::ffff:203.0.113.9", "2001:db8:0:0:1::7"}
 
 var c04Addrs = []string{"10.1.0.10", "192.168.7.7", "172.16.200.3", "2001:db8::7", "fe80::1", "203.0.113.9", "10.1.0.11", "::1", "127.0.0.1"}
 
@@ -45,6 +48,11 @@ func nearAddr(c *Ctx, a string) string {
 	default:
 		return "1" + a
 	}
+}
+
+func sameIP(a, b string) bool {
+	x, y := net.ParseIP(a), net.ParseIP(b)
+	return x != nil && y != nil && x.Equal(y)
 }
 
 func peerOf(ip string, port int) string {
@@ -96,6 +104,11 @@ func runC04(c *Ctx) {
 			}
 		}
 	}
+	if addrA != addrB && sameIP(addrA, addrB) {
+		// one address in two spellings is neither "the same text" nor "another address": not judged
+		addrB = addrA
+		oddB = oddA
+	}
 	// how B's address reaches the gateway: TCP peer, or first X-Forwarded-For element
 	peerIP := addrB
 	viaXFF := c.T.Bool(1, 2) || oddB
@@ -103,6 +116,11 @@ func runC04(c *Ctx) {
 		peerIP = []string{"10.200.0.1", "10.200.0.2", addrA}[c.T.Choose(3)] // the proxy; may even be A itself
 		chain := []string{addrB}
 		nmore := c.T.Choose(4)
+		if c.T.Bool(1, 6) {
+			// a long way through proxies and load balancers
+			nmore = 7 + c.T.Choose(25)
+			c.S.Count("probe.long_forwarded_for_chain")
+		}
 		if addrB == "" && nmore == 0 {
 			nmore = 1 // an empty first element needs a second one to be a list at all
 		}
@@ -137,7 +155,7 @@ func runC04(c *Ctx) {
 		issued = "real-download(peer)"
 		if c.T.Bool(1, 2) || oddA {
 			b.From = "10.200.0.7:52000"
-			b.XFF = addrA + []string{"", ", 10.200.0.9", " , 198.51.100.2, 10.200.0.9"}[c.T.Choose(3)]
+			b.XFF = addrA + []string{"", ", 10.200.0.9", " , 198.51.100.2, 10.200.0.9", strings.Repeat(", 198.51.100.2, 10.200.0.9", 6)}[c.T.Choose(4)]
 			if addrA == "" {
 				b.XFF = ", 10.200.0.9"
 			}
